@@ -32,6 +32,20 @@ Theorem C02_map : forall (I : Type) (X : index_ops I) (G : I -> Prop),
     snd (p_run X s log) = snd (spec_run c log).
 Proof. exact @p_run_refines. Qed.
 
+(* a refused single operation (insert of a stored id, update or remove of an absent one) is a no-op in the strongest
+   sense: the index is in the very state it was in - contents, counters, links and entry point *)
+Theorem C02_refused_is_noop : forall (I : Type) (X : index_ops I) (G : I -> Prop),
+  (forall s, G s -> NoDup (map fst (items X s))) ->
+  (forall s id v m l x, G s -> view X s id = Some x -> ins X s id v m l = (s, SExists)) ->
+  (forall s id v m l, G s -> view X s id = None ->
+     exists s', ins X s id v m l = (s', SOk) /\ G s' /\ Permutation (items X s') ((id, (v, m)) :: items X s)) ->
+  (forall s id, G s -> view X s id = None -> rem X s id = (s, SNotFound)) ->
+  (forall s id x, G s -> view X s id = Some x ->
+     exists s', rem X s id = (s', SOk) /\ G s' /\ Permutation (items X s) ((id, x) :: items X s')) ->
+  (forall s id, G s -> match getv X s id with Some (m, _) => exists v, view X s id = Some (v, m) | None => view X s id = None end) ->
+  forall s ch e, G s -> snd (p_apply X s ch) = OSingle e -> e <> ENone -> fst (p_apply X s ch) = s.
+Proof. exact @refused_single_is_noop. Qed.
+
 (* the index without the graph (storeVertex / removeVertex + uint64 counters) meets the contract … *)
 Theorem C02_simple : forall log s c, sgood s -> eqc (view sidx_ops s) c ->
   sgood (fst (p_run sidx_ops s log)) /\ eqc (view sidx_ops (fst (p_run sidx_ops s log))) (fst (spec_run c log)) /\
@@ -56,6 +70,7 @@ Theorem C02_update_nilmeta_refuted :
 Proof. exact update_nilmeta_refuted. Qed.
 
 Print Assumptions C02_map.
+Print Assumptions C02_refused_is_noop.
 Print Assumptions C02_bytes_translated.
 Print Assumptions C02_simple.
 Print Assumptions C02_counts.
